@@ -220,14 +220,20 @@ def match_language(pattern, mode='match'):
             if items and items[-1][0] == sre_c.AT and items[-1][1] in (sre_c.AT_END, sre_c.AT_END_STRING):
                 t.anchored_end = True
                 items = items[:-1]
-            elif items and items[-1][0] == sre_c.BRANCH:
-                # '^(a$|b$)' as produced by the parser's prefix factoring of '^a$|^b$'
+            elif items and items[-1][0] == sre_c.BRANCH and mode != 'fullmatch':
+                # '^(a$|b$|c)' as produced by the parser's prefix factoring of '^a$|^b$|^c':
+                # each alternative carries its own end condition
                 brs = [list(b) for b in items[-1][1][1]]
                 ends = [bool(b) and b[-1][0] == sre_c.AT and b[-1][1] in (sre_c.AT_END, sre_c.AT_END_STRING)
                         for b in brs]
-                if all(ends):
+                if any(ends):
                     t.anchored_end = True
-                    items = items[:-1] + [(sre_c.BRANCH, (None, [b[:-1] for b in brs]))]
+                    head = t.seq(items[:-1], ctx)
+                    alts2 = []
+                    for b, e in zip(brs, ends):
+                        body = t.seq(b[:-1] if e else b, ctx)
+                        alts2.append(body if e else smt.ReConcat(body, smt.ReAll()))
+                    return smt.ReConcat(head, smt.ReUnion(*alts2))
             return t.seq(items, ctx)
         bodies = _expand(t, build)
         body = smt.ReUnion(*bodies)
